@@ -37,7 +37,7 @@ func c09Scenario(id string, g c09Cfg, pattern, fault, nJobs, directed int, seed 
 		d.Reset(seed)
 		rep := map[string]any{"scenario": id, "config": g.String(), "jobs": nJobs,
 			"pattern":  [...]string{"burst", "trickle", "concurrent submitters", "ScheduleWithTimeout on a full queue", "Invoke/InvokeWithTimeout", "burst then silence"}[pattern],
-			"faults":   [...]string{"none", "first job panics", "last job panics", "every worker's current job panics", "PRNG panics and slow jobs", "one slow job per worker", "some jobs end their goroutine with runtime.Goexit"}[fault],
+			"faults":   [...]string{"none", "first job panics", "last job panics", "every worker's current job panics", "PRNG panics and slow jobs", "one slow job per worker", "some jobs end their goroutine with runtime.Goexit", "some jobs fail with a run-time error (nil map write, index out of range, nil dereference)"}[fault],
 			"directed": directed}
 		q := fpgo.NewBufferedChannelQueue[func()](g.qcap, g.qbuf, 8)
 		q.SetLoadFromPoolDuration(100 * time.Microsecond)
@@ -67,6 +67,7 @@ func c09Scenario(id string, g c09Cfg, pattern, fault, nJobs, directed int, seed 
 		panics := make([]bool, nJobs)
 		slow := make([]int, nJobs)
 		goexit := make([]bool, nJobs)
+		rtErr := make([]int, nJobs) // 0 none, 1 nil map write, 2 index out of range, 3 nil dereference
 		switch fault {
 		case 1:
 			panics[0] = true
@@ -84,6 +85,12 @@ func c09Scenario(id string, g c09Cfg, pattern, fault, nJobs, directed int, seed 
 		case 5:
 			for i := 0; i < g.max && i < nJobs; i++ {
 				slow[i] = 3
+			}
+		case 7:
+			for i := range rtErr {
+				if i == 0 || rng.Intn(4) == 0 {
+					rtErr[i] = 1 + rng.Intn(3)
+				}
 			}
 		case 6:
 			// a job may end the goroutine it runs on (runtime.Goexit, what testing.T.FailNow does): not a panic, the
@@ -119,6 +126,17 @@ func c09Scenario(id string, g c09Cfg, pattern, fault, nJobs, directed int, seed 
 				}
 				if goexit[i] {
 					runtime.Goexit()
+				}
+				switch rtErr[i] {
+				case 1:
+					var m map[int]int
+					m[i] = 1
+				case 2:
+					var l []int
+					_ = l[i+1]
+				case 3:
+					var p *c09Cfg
+					_ = p.max
 				}
 			}
 		}
@@ -252,7 +270,7 @@ func c09Scenario(id string, g c09Cfg, pattern, fault, nJobs, directed int, seed 
 		deadline := time.Now().Add(30 * time.Second)
 		wantPanics := 0
 		for i := range panics {
-			if panics[i] && accepted[i].Load() {
+			if (panics[i] || rtErr[i] != 0) && accepted[i].Load() {
 				wantPanics++
 			}
 		}
@@ -282,9 +300,14 @@ func c09Scenario(id string, g c09Cfg, pattern, fault, nJobs, directed int, seed 
 			c.Violationf("wrong-error", rep, "%s: %v", g, w)
 		}
 		handlerMu.Lock()
+		rtSeen := 0
 		seen := map[int]int{}
 		for _, h := range handled {
 			p, ok := h.(c09Panic)
+			if _, isRT := h.(runtime.Error); !ok && isRT && fault == 7 {
+				rtSeen++
+				continue
+			}
 			if !ok {
 				c.Violationf("panic-handler:foreign-panic", rep, "%s: the panic handler was invoked with %v, which is not a job's own panic", g, h)
 				continue
@@ -296,6 +319,9 @@ func c09Scenario(id string, g c09Cfg, pattern, fault, nJobs, directed int, seed 
 			if panics[i] && accepted[i].Load() && seen[i] != 1 {
 				c.Violationf("panic-handler:count", rep, "%s: the panic of job %d was reported %d times", g, i, seen[i])
 			}
+		}
+		if fault == 7 && rtSeen != wantPanics {
+			c.Violationf("panic-handler:count", rep, "%s: %d accepted jobs failed with a run-time error, the panic handler was told %d times", g, wantPanics, rtSeen)
 		}
 		pool.Close()
 		// a closed pool reports it and never runs the job
@@ -540,7 +566,7 @@ func c09Scenarios(c *core.Ctx, race bool) []core.Scenario {
 		}
 		g := cfgs[ci]
 		for pattern := 0; pattern < 6; pattern++ {
-			for _, fault := range []int{(pattern + ci) % 7, (pattern + ci + 3) % 7} {
+			for _, fault := range []int{(pattern + ci) % 8, (pattern + ci + 3) % 8} {
 				for s := 0; s < seeds; s++ {
 					n := 20 + rng.Intn(100)
 					if race {
@@ -572,7 +598,7 @@ func init() {
 		Meta: func(c *core.Ctx) core.Meta {
 			return core.Meta{
 				Level: "exploration",
-				Rule: "pool configurations workerSizeMaximum 1..4 x standby {1,max,max+1,max+3} (and standby 0 with batch >= 1 and a 10 s idle expiry) x batch {0,1,3} x job queue (cap,buf) in {(1,0),(2,3),(3,8)} x expiry {2,20 ms} x jam {1,50 ms} (quick: 24 of them incl. the max-1 pool, thorough: all 104 x 8 seeds) x 6 submission patterns (burst, trickle, 2..8 concurrent submitters, ScheduleWithTimeout, InvokeWithTimeout, burst then silence) x 2 fault placements each (first / last / every worker's current job panics, PRNG panics + slow jobs, slow jobs, jobs that end their goroutine with runtime.Goexit) plus directed runs that park a dying worker, two expiring workers, the spawn loop after its computation and Schedule before its wake-up; the jobs are the monitor (atomic start counters per unique job, concurrency gauge asserted at every start, unique panic values); the panic handler logs what it gets and is instant, 2 ms or 5 ms slow; two pools sharing one job queue (the first closed with its queue kept open while its stand-by workers wait, the second accepts jobs afterwards); " +
+				Rule: "pool configurations workerSizeMaximum 1..4 x standby {1,max,max+1,max+3} (and standby 0 with batch >= 1 and a 10 s idle expiry) x batch {0,1,3} x job queue (cap,buf) in {(1,0),(2,3),(3,8)} x expiry {2,20 ms} x jam {1,50 ms} (quick: 24 of them incl. the max-1 pool, thorough: all 104 x 8 seeds) x 6 submission patterns (burst, trickle, 2..8 concurrent submitters, ScheduleWithTimeout, InvokeWithTimeout, burst then silence) x 2 fault placements each (first / last / every worker's current job panics, PRNG panics + slow jobs, slow jobs, jobs that end their goroutine with runtime.Goexit, jobs that fail with run-time errors) plus directed runs that park a dying worker, two expiring workers, the spawn loop after its computation and Schedule before its wake-up; the jobs are the monitor (atomic start counters per unique job, concurrency gauge asserted at every start, unique panic values); the panic handler logs what it gets and is instant, 2 ms or 5 ms slow; two pools sharing one job queue (the first closed with its queue kept open while its stand-by workers wait, the second accepts jobs afterwards); " +
 					"after submission the driver waits until every accepted job started or the stuck detector fires (no job start and no worker lifecycle event for 3 s and no library goroutine able to progress); dedicated scenarios hold the only worker busy to check Full / ScheduleTimeout / closed errors exactly. distinct_nontrivial = distinct scenarios + hook-trace signatures",
 				Assumptions: []string{"exactly-once only while the pool is left open; configurations restricted to the property's quantifier (max >= 1, queue capacity >= 1, standby >= 1 or the standby-0 variant)",
 					"idle workers re-arming their expiry timer are not counted as progress", "workerSizeMaximum is configured before any other setter wakes the spawn loop (the bound is only asserted while the maximum is not being changed)", "the race detector is advisory for worker/pool.go (pre-existing unsynchronised statistics counters), reports are recorded but do not decide"},
